@@ -1,5 +1,6 @@
 SPECIFICATION Spec
 CONSTANTS
+  Bug = "none"
   MaxN = 80
   MaxD = 8
   ExtraB = 3
